@@ -438,3 +438,7 @@ mod test {
         assert!(Gene::try_from(&bin[..28]).is_err());
     }
 }
+
+#[cfg(kani)]
+#[path = "/verif/kani/gene.rs"]
+mod verif_kani;
